@@ -281,7 +281,10 @@ func TestVerifC08_Confinement(t *testing.T) {
 						if fp == "" || !j.Inside(filepath.Join(fp, n)) {
 							t.Fatalf("VERIF-FAIL class=C08/listing-outside-root op=%s key=%q returned dir %q under %q", op, key, n, fp)
 						}
-						if n == "rootx" || n == "jail" {
+						// "rootx"/"jail" are the names of the directories next to / above the root; a key such as
+						// "rootx/a" legitimately creates root/rootx, so the name alone proves nothing: it is a
+						// leak only if no such directory exists under the resolved in-root path.
+						if st, lerr := os.Lstat(filepath.Join(fp, n)); (n == "rootx" || n == "jail") && (lerr != nil || !st.IsDir()) {
 							t.Fatalf("VERIF-FAIL class=C08/listing-outside-root op=%s key=%q lists a directory outside the root: %q", op, key, n)
 						}
 					}
